@@ -66,7 +66,7 @@ def parse_sln(text):
 class Steps:
     """Abstract script: an ordered list of MSBuild-representable steps."""
     KINDS = ['executable', 'executable', 'shared_library', 'static_library',
-             'library', 'command', 'alias']
+             'library', 'command', 'alias', 'copy_file']
 
     def __init__(self, rng):
         self.rng = rng
@@ -207,6 +207,11 @@ class Steps:
             elif s['kind'] == 'alias':
                 lines.append("{} = alias({!r}, {})".format(v, s['name'],
                                                            deps))
+            elif s['kind'] == 'copy_file':
+                # every copy has its own destination; several may share the
+                # same source file
+                lines.append("{} = copy_file({!r}, 'main.c')".format(
+                    v, s['name'] + '.txt'))
         ids = {s['id'] for s in self.steps}
         dflt = [d for d in (self.default if isinstance(self.default, list)
                             else [self.default]) if d in ids]
